@@ -84,7 +84,37 @@ CheckObs(S, id, o) ==
                    /\ Say(~a.list \/ \A i \in 1..Len(o.r.v.prefix) : o.r.v.prefix[i] = <<>>, id, "C16",
                           "format.list_has_prefix", why))
 
-CheckRec(e) == LET S == LoadState(e.st) IN \A j \in 1..Len(e.obs) : CheckObs(S, e.id, e.obs[j])
+CheckFilter(S, id, o) ==
+   LET a == o.a why == ToString([p |-> a.p, v |-> a.v, form |-> a.form])
+       K == FilterKeep(S, a.p, a.v)
+       called == FilterCalled(S, a.p, a.v)
+   IN
+   CASE o.q = "filter_inplace" ->
+          LET X == DoFilter(S, a.p, a.v, "filter").st IN
+          /\ Say(o.r.s = "ok", id, "C08", "inplace.status:" \o o.r.s, why)
+          /\ (o.r.s = "ok" =>
+                /\ Say(SeqSet(o.r.v.live) = Live(X), id, "C08", "inplace.kept_set:" \o a.form, why)
+                /\ Say(o.r.v.top = X.top /\ \A i \in Live(X) : o.r.v.kids[i] = X.kids[i], id, "C08",
+                       "inplace.order:" \o a.form, why)
+                /\ Say(o.r.v.called = called, id, "C08", "inplace.called:" \o a.form, why))
+     [] o.q = "filter_copy" ->
+          LET exp == IF a.p = 0 \/ ~a.self THEN KeptForest(S, K, KidsOf(S, a.p))
+                     ELSE << <<a.p, KeptForest(S, K, S.kids[a.p])>> >>
+          IN
+          /\ Say(o.r.s = "ok", id, "C08", "copy.status:" \o o.r.s \o ":" \o a.via, why)
+          /\ (o.r.s = "ok" =>
+                /\ Say(o.r.v.forest = exp, id, "C08", "copy.result:" \o a.via \o ":" \o a.form, why)
+                /\ Say(o.r.v.called = called, id, "C08", "copy.called:" \o a.form, why)
+                /\ Say(o.r.v.src_same, id, "C08", "copy.source_changed", why)
+                /\ Say(o.r.v.faithful, id, "C08", "copy.data_or_id_differs", why)
+                /\ Say(o.r.v.cls, id, "C08", "copy.result_class", why)
+                /\ Say(o.r.v.kinds, id, "C08", "copy.kind_differs", why)
+                \* each kept node appears once: no node "once more below itself"
+                /\ Say(o.r.v.selfdup = <<>>, id, "C08", "copy.accepted_node_twice", why))
+
+CheckRec(e) == LET S == LoadState(e.st) IN
+   \A j \in 1..Len(e.obs) : IF e.obs[j].q \in {"filter_inplace", "filter_copy"} THEN CheckFilter(S, e.id, e.obs[j])
+                              ELSE CheckObs(S, e.id, e.obs[j])
 NObs == FoldLeft(LAMBDA acc, e : acc + Len(e.obs), 0, Recs)
 
 ASSUME \A i \in 1..Len(Recs) : CheckRec(Recs[i])
